@@ -83,6 +83,29 @@ def sortedKeys (o : Opts) : List UInt8 :=
     ++ (if o.has optAgentInfo then [optAgentInfo] else [])
     ++ (if o.has optEnd then [optEnd] else [])
 
+/-! #### `sortedKeys` as the code computes it: from a map iteration order
+
+Go yields the keys of a map in an unspecified order that differs from run to
+run.  `sortedKeysFrom it o` is `sortedKeys` executed when `for k := range o`
+yields the keys in the order `it` (any permutation of the key set): the codes
+other than 82 and 255 are collected in that order, `sort.Ints` sorts them
+(`sortCodes`: insertion sort — any correct sort gives the same list,
+`sortCodes_eq_of_perm`), then 82 and 255 are appended if present.
+`sortedKeysFrom_eq` (Lemmas/V4MapOrder.lean): the result does not depend on
+`it` and is `sortedKeys o`. -/
+
+def insertCode (x : UInt8) : List UInt8 → List UInt8
+  | [] => [x]
+  | y :: ys => if x.toNat ≤ y.toNat then x :: y :: ys else y :: insertCode x ys
+
+/-- `sort.Ints` on the collected codes -/
+def sortCodes (l : List UInt8) : List UInt8 := l.foldr insertCode []
+
+def sortedKeysFrom (it : List UInt8) : List UInt8 :=
+  sortCodes (it.filter (fun k => k != optAgentInfo && k != optEnd))
+    ++ (if it.contains optAgentInfo then [optAgentInfo] else [])
+    ++ (if it.contains optEnd then [optEnd] else [])
+
 /-- inner `for len(data) > 0` loop of `Options.Marshal` (RFC 3396 split).
 `fuel` bounds the recursion structurally; `data.length` suffices. -/
 def chunksAux (code : UInt8) : Nat → Bytes → Bytes
@@ -99,6 +122,11 @@ def chunks (code : UInt8) (data : Bytes) : Bytes :=
 /-- `Options.Marshal` -/
 def marshalOpts (o : Opts) : Bytes :=
   ((sortedKeys o).filter (fun c => c != optEnd && c != optPad)).flatMap
+    (fun c => chunks c ((o.f c).getD []))
+
+/-- `Options.Marshal` when the runtime yields the map's keys in the order `it` -/
+def marshalOptsFrom (it : List UInt8) (o : Opts) : Bytes :=
+  ((sortedKeysFrom it).filter (fun c => c != optEnd && c != optPad)).flatMap
     (fun c => chunks c ((o.f c).getD []))
 
 /-- `writeIP`: nil → zeros; otherwise `ip.To4()[:4]`, which panics when
